@@ -85,6 +85,8 @@ def check_modes(ctx, repo, yc):
     m = repo.module(YANNY)
     n_open = 0
     for q, f in sorted(m.funcs.items()):
+        if (getattr(f, 'roles', None) or {}).get('inlined_helper'):
+            continue                    # a new helper that is read at its call sites (every one of them inlined), not on its own
         for c, path, mode in open_calls(f.node):
             n_open += 1
             if not is_write_mode(mode):
@@ -119,6 +121,8 @@ def check_modes(ctx, repo, yc):
     DESTRUCTIVE = {'os.remove', 'os.unlink', 'os.rename', 'os.replace', 'os.truncate', 'shutil.move', 'shutil.copy',
                    'shutil.copyfile', 'shutil.rmtree', 'os.rmdir'}
     for q, f in sorted(m.funcs.items()):
+        if (getattr(f, 'roles', None) or {}).get('inlined_helper'):
+            continue
         for c in walk_local(f.node):
             if isinstance(c, ast.Call):
                 d = repo.external_name(c.func, m) if isinstance(c.func, (ast.Attribute, ast.Name)) else None
